@@ -75,8 +75,8 @@ def numeric(t):
     return t == 'R' or t.startswith('N')
 
 
-def bad_code(e, ext):
-    pool = set(e['codes']) | set(ext.get(e['ext'], []) if e['ext'] else [])
+def bad_code(e, ext, avoid=()):
+    pool = set(e['codes']) | set(ext.get(e['ext'], []) if e['ext'] else []) | set(avoid)
     L = max(e['mn'], min(e['mx'], len(e['codes'][0]) if e['codes'] else 2))
     for ch in 'ZQXJ':
         for n in range(L, e['mx'] + 1):
@@ -150,7 +150,15 @@ def apply_plan(full, info, plan, conc):
         elif kind == 'TooShort':
             value = ('1' if numeric(e['dtype']) else 'A') * (e['mn'] - 1)
         elif kind == 'BadCode':
-            value = bad_code(e, conc.ext)
+            # not a code by which a same-id segment elsewhere in the map is recognised (CRC*ZZ is the EPSDT referral of the 837): that would be another segment, not a bad code
+            avoid = set()
+            for o in full['nodes']:
+                if o['kind'] == 'seg' and o['id'] == n['id'] and len(o.get('eles', [])) >= ei:
+                    oe = o['eles'][ei - 1]
+                    if ci and oe.get('subs') and len(oe['subs']) >= ci:
+                        oe = oe['subs'][ci - 1]
+                    avoid |= set(oe.get('codes') or [])
+            value = bad_code(e, conc.ext, avoid)
             if value is None:
                 return None
         elif kind == 'BadClass':
@@ -216,6 +224,14 @@ def apply_plan(full, info, plan, conc):
             return None
         for p in todo:
             vals[p - 1] = ''
+        if plan.get('tail'):
+            # variant: the segment also ENDS at the element the note hangs on (everything situational after it removed)
+            anchor = pos[0] if ty in ('C', 'L') else max([p for p in pos if pres(p)] or [0])
+            extra = [p for p in range(anchor + 1, len(vals) + 1) if pres(p)]
+            if not extra or not anchor or not all(removable(p) for p in extra):
+                return None
+            for p in extra:
+                vals[p - 1] = ''
         after = notes_status(n, vals)
         if [a for k, a in enumerate(after) if k != ci - 1] != [b for k, b in enumerate(before) if k != ci - 1] or after[ci - 1] is not True:
             return None
@@ -228,6 +244,9 @@ def apply_plan(full, info, plan, conc):
         at = si + 1
         sid = 'ZZZ'
     elif kind == 'MissingRequiredSeg':
+        # only where the segment occurs once: with a repeated one, removing one occurrence leaves a conformant document
+        if (si > 0 and info[si - 1][0] == nid) or (si + 1 < len(info) and info[si + 1][0] == nid):
+            return None
         del info[si]
         at = si
     elif kind == 'SegOverMax':
@@ -291,6 +310,10 @@ def apply_plan(full, info, plan, conc):
         if b == 'SE':
             v[0] = str(cnt)
     faultset = sum(1 for x in info[:at + 1] if x[1] == 'ST')
+    last_st = max([k for k, x in enumerate(info[:at + 1]) if x[1] == 'ST'] or [-1])
+    last_se = max([k for k, x in enumerate(info[:at]) if x[1] == 'SE'] or [-1])
+    if last_st < 0 or last_se > last_st:
+        faultset = 0          # the fault is outside any transaction set (TA1 after GE ...): no set carries it
     return info, {'seg': n['id'] if kind != 'UnknownSeg' else 'ZZZ', 'at': at, 'ele': ei, 'sub': ci, 'value': value}, alt, faultset
 
 
@@ -379,10 +402,12 @@ def run(tier, replay=None):
     rnd = random.Random(vlib.seed() + 3)
     files = wc.choose_maps(tier, rnd)
     gens = wc.gen_docs_many(files, cap=2, maxdepth=60 if q else 80, timeout=2400)
+    sims = wc.gen_docs_many(files, cap=3, maxdepth=150, mode='sim', num=40 if q else 150, seed=vlib.seed(), timeout=2400)
     ejobs = []
     for fn in files:
         _, full = wc.export_map(fn)
-        docs = cover_docs(full, gens[fn]['docs'], 4 if q else 40)
+        # the random deep walks visit many situational segments per document: a handful of them covers (nearly) every segment node
+        docs = cover_docs(full, gens[fn]['docs'] + [d for d in sims[fn]['docs'] if d not in gens[fn]['docs']], 4 if q else 40)
         ejobs.append((fn, docs))
     enum = vlib.parallel_map(_enum_job, ejobs)
     jobs = []
@@ -393,6 +418,8 @@ def run(tier, replay=None):
         chk.add_tlc(res, 'Fault plans ' + fn)
         for p in plans:
             kinds_total[p['kind']] = kinds_total.get(p['kind'], 0) + 1
+        # every broken-note plan also in the variant where the segment ENDS at the element the note hangs on
+        tails = [dict(p, tail=True) for p in plans if p['kind'] == 'SyntaxBroken']
         if q:
             # stratified by kind so that rare kinds are always exercised
             bykind = {}
@@ -403,6 +430,7 @@ def run(tier, replay=None):
                 rnd.shuffle(ps)
                 sel += ps[:45]
             plans = sel
+        plans = plans + tails
         batch = []
         for p in plans:
             tid += 1
